@@ -123,7 +123,10 @@ def sc_data(sc):
         a = np.array(v[0::2]) + 1j * np.array(v[1::2])
     else:
         a = np.array(v, dtype=float)
-    return apply_layout(a.reshape(sc["shape"]), sc.get("layout"))
+    a = a.reshape(sc["shape"])
+    if str(sc.get("dtype", "")).startswith("int") and not sc["cplx"]:
+        a = np.rint(a).astype(sc["dtype"])          # integer-dtype input (the stored values are whole numbers)
+    return apply_layout(a, sc.get("layout"))
 
 
 def set_data(sc, arr):
@@ -137,6 +140,8 @@ def set_data(sc, arr):
     else:
         flat = arr.astype(float).ravel()
     sc["data"] = [float(x).hex() for x in flat]
+    if sc.get("dtype") and (sc["cplx"] or not np.all(flat == np.rint(flat)) or (flat.size and np.max(np.abs(flat)) >= 2 ** 30)):
+        sc.pop("dtype")
     return sc
 
 
@@ -550,6 +555,8 @@ def gen_scenario(rng, est, nmax=64, min_ch=1, max_ch=5, lead=None, layout=None):
         sc["low_bias"] = rng.random() < 0.8
         if est == "multi_taper_psd":
             sc["jackknife"] = rng.random() < 0.15
+    if not sc["cplx"] and rng.random() < 0.1:
+        force_int(rng, sc)              # integer-dtype samples
     return sc
 
 
@@ -607,6 +614,43 @@ def force_few_tapers(rng, sc):
         sc["low_bias"] = rng.random() < 0.5
     sc["adaptive"] = True
     return sc
+
+
+def force_int(rng, sc, dtype=None):
+    """the same kind of call on integer-dtype samples (raw ADC counts): whole numbers, some rows with an
+    offset, scaled by a small power of two"""
+    shape = sc["shape"]
+    n = shape[-1]
+    M = int(np.prod(shape[:-1])) if len(shape) > 1 else 1
+    rows = []
+    for _ in range(M):
+        v = np.array([float(rng.randint(-40, 40)) for _ in range(n)])
+        if rng.random() < 0.5:
+            v += rng.randint(-100, 100)
+        if not v.any() or np.all(v == v[0]):
+            v[0] += 7.0
+        rows.append(v)
+    a = np.array(rows).reshape(shape) * 2.0 ** rng.choice([0, 0, 3, 8, 15])
+    sc["dtype"] = dtype or rng.choice(["int64", "int32", "int64", "int16" if np.max(np.abs(a)) < 2 ** 15 else "int32"])
+    set_data(sc, a)
+    return sc
+
+
+def scale_factors(x, seed):
+    """exact power-of-two factors far from the data's own scale (2^-45 and 2^+35), kept inside the range where
+    nothing under- or overflows, and per-channel factors (a different power of two for every row)"""
+    amax = float(np.max(np.abs(x))) or 1.0
+    e0 = int(np.floor(np.log2(amax)))
+    uni = [2.0 ** p for p in (-45, 35) if -110 <= e0 + p <= 110]
+    M = int(np.prod(x.shape[:-1])) if x.ndim > 1 else 1
+    rr = np.random.default_rng(seed + 7)
+    per = None
+    if M > 1:
+        ex = rr.choice([-45, -30, -12, 0, 9, 20, 35], size=M)
+        if len(set(ex.tolist())) == 1:
+            ex[0] = -45 if ex[0] != -45 else 35
+        per = 2.0 ** ex.astype(float)
+    return uni, per
 
 
 def force_coherent(rng, sc):
@@ -748,6 +792,8 @@ def gen_welch(rng, nmax=256):
         method["n_overlap"] = rng.randint(0, (nfft or 64) - 1)
     sc = {"est": "welch", "method": method if rng.random() < 0.9 or len(method) > 1 else None}
     set_data(sc, gen_signal(rng, lead, n, cplx))
+    if not sc["cplx"] and rng.random() < 0.15:
+        force_int(rng, sc)
     return sc
 
 
@@ -765,6 +811,7 @@ def klass(sc):
         sc.get("sides", "default"), "lead%d" % (len(sc["shape"]) - 1),
         ("/adaptive" if sc.get("adaptive") else "") + ("/" + sc["layout"] if sc.get("layout") else "")
         + ("/sibling:" + sc["sibling"] if sc.get("sibling") else "")
+        + ("/" + sc["dtype"] if sc.get("dtype") else "")
         + ("/parity:" + sc["parity_cell"] if sc.get("parity_cell") else "")
         + ("/via_get_spectra" if sc.get("via_get_spectra") else ""))
 
